@@ -313,4 +313,86 @@ theorem npyMarker_ne_final (root a a' : Name) (s' : List Nat) :
     rw [this, List.mem_append]; right; unfold npySuffix; decide
   revert hdot; unfold completeName; decide
 
+/-! ### chunk_metadata on the slices katdal builds -/
+
+theorem map_fmtInt_ofNat (w : Nat) (s : List Nat) :
+    (s.map Int.ofNat).map (fmtInt w) = s.map (padDec w) := by
+  induction s with
+  | nil => rfl
+  | cons a t ih =>
+    simp only [List.map_cons, ih]
+    congr 1
+
+theorem chunkIdStrInt_ofNat (s : List Nat) : chunkIdStrInt (s.map Int.ofNat) = chunkIdStr s := by
+  unfold chunkIdStrInt chunkIdStr chunkIdStrW
+  rw [map_fmtInt_ofNat]
+
+theorem sliceShape_natSlices : ∀ (starts shape : List Nat), starts.length = shape.length →
+    sliceShape (natSlices starts shape) = some (shape.map Int.ofNat) := by
+  intro starts
+  induction starts with
+  | nil => intro shape h; cases shape with
+    | nil => rfl
+    | cons _ _ => simp at h
+  | cons a t ih =>
+    intro shape h
+    cases shape with
+    | nil => simp at h
+    | cons n ns =>
+      simp only [List.length_cons] at h
+      have := ih ns (by omega)
+      simp only [natSlices, List.zip_cons_cons, List.map_cons, sliceShape] at this ⊢
+      rw [this]
+      simp only [List.map_cons, Option.some.injEq, List.cons.injEq, and_true, Int.ofNat_eq_natCast]
+      omega
+
+theorem sliceStarts_natSlices : ∀ (starts shape : List Nat), starts.length = shape.length →
+    sliceStarts (natSlices starts shape) = starts.map Int.ofNat := by
+  intro starts
+  induction starts with
+  | nil => intro shape _; cases shape <;> rfl
+  | cons a t ih =>
+    intro shape h
+    cases shape with
+    | nil => simp at h
+    | cons n ns =>
+      simp only [List.length_cons] at h
+      have := ih ns (by omega)
+      simp only [natSlices, List.zip_cons_cons, List.map_cons, sliceStarts] at this ⊢
+      rw [this]
+      simp
+
+theorem steps_natSlices (starts shape : List Nat) :
+    (natSlices starts shape).all (fun s => s.step = none ∨ s.step = some 1) = true := by
+  rw [List.all_eq_true]
+  intro s hs
+  simp only [natSlices, List.mem_map] at hs
+  obtain ⟨p, _, rfl⟩ := hs
+  simp
+
+theorem chunkMetadata_natSlices (array : Name) (starts shape : List Nat)
+    (h : starts.length = shape.length) :
+    chunkMetadata array (natSlices starts shape) (some shape) false false
+      = .ok (chunkName array starts, shape.map Int.ofNat) ∧
+    chunkMetadata array (natSlices starts shape) none false false
+      = .ok (chunkName array starts, shape.map Int.ofNat) := by
+  have hname : chunkNameInt array (starts.map Int.ofNat) = chunkName array starts := by
+    unfold chunkNameInt chunkName; rw [chunkIdStrInt_ofNat]
+  have hsteps := steps_natSlices starts shape
+  constructor <;>
+    simp only [chunkMetadata, sliceShape_natSlices starts shape h,
+      sliceStarts_natSlices starts shape h, hsteps, hname] <;> simp
+
+theorem map_ofNat_inj : ∀ (l l' : List Nat), l.map Int.ofNat = l'.map Int.ofNat → l = l' := by
+  intro l
+  induction l with
+  | nil => intro l' h; cases l' <;> simp at h ⊢
+  | cons x xs ih =>
+    intro l' h
+    cases l' with
+    | nil => simp at h
+    | cons y ys =>
+      simp only [List.map_cons, List.cons.injEq] at h
+      rw [ih ys h.2, Int.ofNat.inj h.1]
+
 end ChunkStore
